@@ -36,3 +36,5 @@ func refToInteger(x float64) float64 {
 func verifCall(args ...Value) FunctionCall {
 	return FunctionCall{ArgumentList: args}
 }
+
+func mathBits(x float64) uint64 { return math.Float64bits(x) }
